@@ -2402,6 +2402,15 @@ static int next_token(struct scanner_s *scanner) {
             if (result == CIF_EOF) {
                 ttype = END;
                 result = CIF_OK;
+                if (POSN_COLUMN(scanner) > CIF_LINE_LENGTH) {
+                    /*
+                     * error: the last line is over-length, but there is no line terminator at which that would
+                     * otherwise be detected.  Recover by accepting it as-is; reset the column to report only once.
+                     */
+                    result = scanner->error_callback(CIF_OVERLENGTH_LINE, scanner->line, scanner->column, NULL, 0,
+                            scanner->user_data);
+                    scanner->column = 0;
+                }
             }
 
             /* break out of the scan loop: */
